@@ -7,6 +7,7 @@ package funcs
 // designated key as a string (a key that is a tag stays a tag), and a failure changes nothing.
 
 import (
+	"github.com/GuanceCloud/platypus/pkg/inimpl/guancecloud/input"
 	"strings"
 	"time"
 
@@ -131,6 +132,10 @@ var sqCases = []sqCase{
 	{"select 'unterminated", "-"},
 	{"", "-"},
 	{"h\xc3\xa9llo w\xc3\xb6rld", ""},
+	// backslashes: the obfuscator has a literal-escapes mode that it switches on for the rest of
+	// its life when a statement only tokenises that way - every call must start from a new one
+	{"select \"corp\\orders\".id from t where a = 1", ""},
+	{"select * from t where p = 'C:\\logs\\'", ""},
 }
 
 func sqEngine(s string) (string, bool) {
@@ -168,6 +173,14 @@ func VerifFxSQLCover() {
 		verifnd.Assert(ok && want == anchor, "sql_cover:anchor:documented-result")
 	}
 	m, arg, key, pre, src := tmSubject(val, dt, dt == ast.String, det)
+	if verifnd.Bool() {
+		// history: another point was covered before (a statement that flips the literal-escapes mode)
+		verifnd.Reach("after-another-point")
+		pt0 := input.InitPt(&input.Point{}, "m0", nil, map[string]any{"q0": "select * from t where p = 'C:\\logs\\'"}, time.Time{})
+		le0, re0 := tmRun(pt0, []string{"sql_cover"}, []*ast.Node{fxCall("sql_cover", fxId("q0"))})
+		got0, _, _ := pt0.Get("q0")
+		verifnd.Assert(le0 == nil && re0 == nil && got0 == any("select * from t where p = ?"), "sql_cover:predecessor-covered")
+	}
 	pt := fxNewPoint(m)
 	vPtInv(pt, "pre")
 	loadErr, runErr := tmRun(pt, []string{"sql_cover"}, append(pre, fxCall("sql_cover", arg)))
